@@ -87,6 +87,7 @@ class Dialogue:
         self._attributed = set()  # ids of exceptions already attributed to a (nested) call
         self.active = True
         self.runaway = False
+        self.unlinearisable = None
         self.resume_status = []  # (call index, trial, backend status just before `resume_trial`)
         self.probe = None  # optional: number of busy workers in the backend's truth, sampled at every call
 
@@ -143,6 +144,9 @@ class Dialogue:
             else:
                 self._attributed.add(id(ex))
                 e["ans"] = {"raise": type(ex).__name__}
+                if len(self.entries) > idx + 1 and not isinstance(ex, Runaway):
+                    # the call raised by itself AFTER nested recorded calls: no alternating order exists
+                    self.unlinearisable = f"call {idx} {call} raised {type(ex).__name__} after nested calls"
             raise
         e["ans"] = answer_of(v) if answer_of else {"ret": True}
         return v
@@ -271,10 +275,26 @@ def wrap_backend(be, dlg):
         return dlg.call(["be", "resume", int(trial_id), None if new_config is None else dlg.cfg_token(new_config)],
                         lambda: o_resume(trial_id=trial_id, new_config=new_config))
 
+    class StatusProxy:
+        """`stop_all` reads `trial.status` of the objects returned by `_all_trial_results` one by one while it
+        stops trials; backends may hand out their live objects (the simulator does), so every read is an
+        observation of its own"""
+
+        def __init__(self, obj):
+            self._obj = obj
+            self.trial_id = obj.trial_id
+
+        @property
+        def status(self):
+            return dlg.call(["be", "status", int(self._obj.trial_id)], lambda: self._obj.status, lambda v: {"st": v})
+
+        def __getattr__(self, name):
+            return getattr(self._obj, name)
+
     def all_results(trial_ids):
         if state["in_stop_all"]:
-            return dlg.call(["be", "all_results"], lambda: o_all(trial_ids),
-                            lambda v: {"status": [[int(t.trial_id), t.status] for t in v]})
+            v = dlg.call(["be", "all_results"], lambda: o_all(trial_ids), lambda v: {"ids": [int(t.trial_id) for t in v]})
+            return [StatusProxy(t) for t in v]
         return o_all(trial_ids)
 
     def stop_all():
@@ -398,6 +418,7 @@ class ScriptBackend(TrialBackend):
             t = {"metrics": [], "paused_at": 0}
             self.truth[trial_id] = t
         t["status"] = Status.in_progress
+        t.pop("ended_at", None)
         t["config"] = config
         first = t["paused_at"] + 1 if (trial_id in self.ckpt or not self.p.get("restart_without_ckpt", True)) else 1
         if t["paused_at"] > 0 and trial_id not in self.ckpt:
@@ -519,8 +540,9 @@ class ScriptScheduler(TrialScheduler):
     """PRNG scheduler obeying contract K: random decisions, random start / start-from-checkpoint /
     resume-of-a-paused-trial / none suggestions."""
 
-    def __init__(self, seed, params, metric_names, modes):
-        super().__init__({"x": uniform(0, 1), "k": randint(0, 3)})
+    def __init__(self, seed, params, metric_names, modes, sim=False):
+        super().__init__({"a": randint(0, 2), "b": randint(0, 1)} if sim else {"x": uniform(0, 1), "k": randint(0, 3)})
+        self.sim = sim
         self.rng = random.Random(seed)
         self.p = params
         self._metric_names, self._modes = metric_names, modes
@@ -544,14 +566,19 @@ class ScriptScheduler(TrialScheduler):
             self.alive.add(t)
             cfg = None
             if self.rng.random() < 0.4:
-                cfg = {"x": self.rng.randrange(0, 64) / 64.0, "k": self.rng.randint(0, 3)}
+                cfg = self._config()
             return TrialSuggestion.resume_suggestion(trial_id=t, config=cfg)
-        cfg = {"x": self.rng.randrange(0, 64) / 64.0, "k": self.rng.randint(0, 3)}
+        cfg = self._config()
         ck = None
         known = sorted(self.alive | set(self.paused))
         if known and u > 1 - self.p.get("p_ckpt", 0.15):
             ck = self.rng.choice(known)
         return TrialSuggestion.start_suggestion(cfg, checkpoint_trial_id=ck)
+
+    def _config(self):
+        if self.sim:
+            return {"a": self.rng.randint(0, 2), "b": self.rng.randint(0, 1)}
+        return {"x": self.rng.randrange(0, 64) / 64.0, "k": self.rng.randint(0, 3)}
 
     def on_trial_add(self, trial):
         self.alive.add(trial.trial_id)
@@ -598,16 +625,16 @@ class ScriptScheduler(TrialScheduler):
         return out
 
 
-def make_script_scheduler(seed, params, metric_names, modes, with_ckpt_mixin):
+def make_script_scheduler(seed, params, metric_names, modes, with_ckpt_mixin, sim=False):
     if with_ckpt_mixin:
         from syne_tune.callbacks.remove_checkpoints_callback import DefaultRemoveCheckpointsSchedulerMixin
 
         class ScriptSchedulerCk(DefaultRemoveCheckpointsSchedulerMixin, ScriptScheduler):
             trials_checkpoints_can_be_removed = ScriptScheduler.trials_checkpoints_can_be_removed
 
-        s = ScriptSchedulerCk(seed, params, metric_names, modes)
+        s = ScriptSchedulerCk(seed, params, metric_names, modes, sim)
     else:
-        s = ScriptScheduler(seed, params, metric_names, modes)
+        s = ScriptScheduler(seed, params, metric_names, modes, sim)
     orig = s.on_trial_result
 
     def on_trial_result(trial, result):
@@ -633,7 +660,7 @@ def make_scheduler(sp, seed, max_t, sim):
     if kind == "script":
         names = sp.get("metric_names", [METRIC])
         modes = sp.get("modes", "min")
-        return make_script_scheduler(seed, sp.get("params", {}), names, modes, sp.get("ckpt_mixin", False)), False
+        return make_script_scheduler(seed, sp.get("params", {}), names, modes, sp.get("ckpt_mixin", False), sim), False
     if kind == "fifo":
         from syne_tune.optimizer.schedulers.fifo import FIFOScheduler
         so = {"debug_log": False}
@@ -843,6 +870,8 @@ def run_loop(spec):
                 raised = type(ex).__name__ + (":" + str(ex) if isinstance(ex, ValueError) and "failed" in str(ex) else "")
                 raised_obj = ex
         dlg.active = False
+        if dlg.unlinearisable:
+            raise RuntimeError("dialogue cannot be linearised: " + dlg.unlinearisable)
         ts = tuner.tuning_status
         mode = sch.metric_mode()
         final = {"raised": raised}
@@ -1272,13 +1301,20 @@ LEGAL_EDGE = {
 
 def monitor_c01(t):
     out = []
+    k_violated = bool(monitor_k(t))  # lifecycle / resume clauses are guarantees of the loop UNDER contract K
     n = t["header"]["n_workers"]
     calls = _calls(t)
     # budget: trials occupying workers (backend truth) and the polled set
     for i, c, a in calls:
         occ = t["dlg"].entries[i].get("_occ")
         if occ is not None and occ > n:
-            out.append(F("c01:budget-exceeded", f"{occ} trials occupy workers with n_workers={n}", {"call": i}))
+            if t["header"]["sim_callback"]:
+                out.append(F("c01:budget-exceeded:simulator-busy-list",
+                             f"{occ} trials occupy simulated workers with n_workers={n} (start_jobs_without_delay={t['header']['swd']}): "
+                             f"SimulatorBackend.busy_trial_ids omits trials that are scheduled but whose StartEvent has not fired yet",
+                             {"call": i}))
+            else:
+                out.append(F("c01:budget-exceeded", f"{occ} trials occupy workers with n_workers={n}", {"call": i}))
             break
         if c[:2] == ["be", "fetch"] and (len(c[2]) > n or len(set(c[2])) != len(c[2])):
             out.append(F("c01:budget-exceeded", f"running set {c[2]} with n_workers={n}", {"call": i}))
@@ -1302,12 +1338,12 @@ def monitor_c01(t):
     for snap in snaps:
         for tid, st in snap.items():
             prev = seq.get(tid)
-            if st not in LEGAL_EDGE.get(prev, set()):
+            if st not in LEGAL_EDGE.get(prev, set()) and not (k_violated and st == Status.in_progress):
                 out.append(F("c01:illegal-status-edge", f"trial {tid} moved {prev} -> {st}", None))
             seq[tid] = st
     # only a paused trial is resumed
     for idx, tid, st in t["dlg"].resume_status:
-        if st != Status.paused:
+        if st != Status.paused and not k_violated:
             out.append(F("c01:resume-of-non-paused", f"resume_trial({tid}) while its backend status is {st}", {"call": idx}))
     # notifications: add/resume, results, exactly one end, nothing afterwards
     open_run = {}  # trial -> "open" | "closed"
